@@ -28,7 +28,7 @@ var palette = []string{"a", "a/a", "eth1"} // a / a/a: two-key entries whose "/"
 
 // palettes: the key values of a case (index 0 = the default ones); separators and characters with a meaning in
 // paths: '/', ' ', '_', ':' (IPv6 / MAC addresses), brackets, '=', '*'
-var palettes = [][]string{{"a", "a/a", "eth1"}, {"x:y", "fe80::1", "y"}, {"a", "a b", "b a"}, {"a_b", "a", "b_a"}, {"[z]", "k=v", "c.d"}, {"a", "a/b", "b/a"}}
+var palettes = [][]string{{"a", "a/a", "eth1"}, {"x:y", "fe80::1", "y"}, {"a", "a b", "b a"}, {"a_b", "a", "b_a"}, {"[z]", "k=v", "c.d"}, {"a", "a/b", "b/a"}, {"a+b", "aab", "a(b|c)"}}
 
 type Perturb struct {
 	Leaf vlib.LeafSel `json:"leaf"`
@@ -52,7 +52,7 @@ type Case struct {
 
 func gen(t *rapid.T) *Case {
 	c := &Case{Streams: rapid.IntRange(1, 2).Draw(t, "streams")}
-	c.Pal = rapid.SampledFrom([]int{0, 0, 0, 1, 2, 3, 4, 5}).Draw(t, "palette")
+	c.Pal = rapid.SampledFrom([]int{0, 0, 0, 1, 2, 3, 4, 5, 6}).Draw(t, "palette")
 	n := rapid.IntRange(1, 3).Draw(t, "nintents")
 	for i := 0; i < n; i++ {
 		c.Intents = append(c.Intents, vlib.GenLeafSels(t, uni, 1, 6, "int"))
